@@ -202,7 +202,7 @@ static inline int n_exchange(int *p, int v) { int o = *p; n_store(p, v); return 
   __CPROVER_ensures(g_hold != 0 ==> g_owe == 0)
 #undef ENQ_CONTRACT
 #define ENQ_CONTRACT(LV) \
-  __CPROVER_requires(Q_FRESH(self) && __CPROVER_is_fresh(args, sizeof(VArg)) && N_PRE(self)) \
+  __CPROVER_requires(Q_FRESH(self) && ENQ_ARGS_FRESH && N_PRE(self)) \
   __CPROVER_assigns(N_FRAME(self), args->id) \
   __CPROVER_ensures(N_POST(self) && g_hold == __CPROVER_old(g_hold) && g_mydqn == __CPROVER_old(g_mydqn))
 #undef CONTRACT_DisableQueueNotify_dtor
